@@ -51,6 +51,8 @@ def run(tier, seed):
                      'the digest as an injective function', 'equivalent header spellings are produced by the concretiser per RFC 7230']
     res, _ = pipeline.generate('GenC10', "SPECIFICATION Spec\nINVARIANT EmitCases\nCHECK_DEADLOCK FALSE\n")
     r.add_tlc('GenC10 (reply classes, URL shapes, options; Handshake!HVerdict)', res)
+    from . import c10hdr
+    c10hdr.add(r, tier)
     cases = [l for l in res.lines if isinstance(l, dict) and 'case' in l]
     if not cases:
         raise pipeline.MachineryFailure('GenC10 printed no cases')
@@ -63,8 +65,8 @@ def run(tier, seed):
                     continue
                 jobs.append((c, sp, seg, scenario(c['case'], c['exp'], sp, seg, 2)))
     logs = pipeline.execute([j[3] for j in jobs])
-    r.evaluations = len(jobs)
-    r.traces = len(jobs)
+    r.evaluations += len(jobs)
+    r.traces += len(jobs)
     traces, nt, seen = [], set(), set()
     for i, ((c, sp, seg, sc), log) in enumerate(zip(jobs, logs)):
         tr = sessprop.slim(log, KINDS, drop=('msg', 'url', 'len'), keep_reads=True)
@@ -96,6 +98,17 @@ def run(tier, seed):
 def replay(path, seed):
     from .. import world
     case = json.load(open(path))['case']
+    if case.get('kind') == 'hdrblock':
+        Response = world.lomond_modules()['response'].Response
+        row = case['row']
+        got = Response(row['raw'].encode('latin-1')).get_list(row['field'])
+        print('raw header block: %r\nspec (RFC 7230): %s\ncode: %s' % (row['raw'], row['spec'], got))
+        from . import c10hdr
+        if [c10hdr.norm(v) for v in got] != row['spec']:
+            print('VIOLATION property=C10 replay=%s clause=header_block_read_differently_from_rfc7230' % path)
+            return 1
+        print('C10 replay: ok')
+        return 0
     log, _ = world.run_scenario(case['scenario'])
     tr = sessprop.slim(log, KINDS, drop=('msg', 'url', 'len'), keep_reads=True)
     for x in tr:
